@@ -37,13 +37,13 @@ def run(ck):
                     if set(zeros) != set(FLAGS) or max(zeros.values()) > i: w1.append(f'{e[1]} set before the record was cleared')
                 if set(zeros) != set(FLAGS): w1.append('record not cleared on a path')
                 loc = emailfn.local_call(p)
-                loc_ok = loc is not None and p.passed(f'({loc[3]} != EEAV_NO_ERROR)', False)
+                loc_ok = loc is not None and shared.value_is_zero(p, loc[3])
                 branch = emailfn.domain_branch(p)
                 dom_ok = False; want = None
                 if loc_ok and branch == 'host':
                     a = p.calls('is_ascii_domain'); u = p.calls('is_utf8_domain')
-                    if a: dom_ok = p.passed(f'({a[0][3]} == EEAV_NO_ERROR)', True)
-                    if u: dom_ok = p.passed(f'({u[0][3]} >= 0)', True)
+                    if a: dom_ok = shared.value_is_zero(p, a[0][3])
+                    if u: dom_ok = p.passed(f'({u[0][3]} >= 0)', True) or p.passed(f'({u[0][3]} < 0)', False)
                     want = 'is_domain'
                 elif loc_ok and branch == 'literal':
                     fam = shared.literal_family(p)
@@ -74,7 +74,7 @@ def run(ck):
                             b = bre[0][3] if bre else '?'
                             want_args = [('email', f'((({at} + 1) - email) - 1)'), (f'(({at} + 1) + 1)', f'(({b} - ({at} + 1)) - 1)')]
                         got_args = [c[2] for c in dups]
-                        if got_args != want_args: w5.append(f'strndup{got_args}, want {want_args}')
+                        if len(got_args) != len(want_args) or not all(len(g) == len(w) and all(shared.same_value(x, y) for x, y in zip(g, w)) for g, w in zip(got_args, want_args)): w5.append(f'strndup{got_args}, want {want_args}')
             r1.instance(site, ok=not w1, wclass='flags-exclusive', what='; '.join(sorted(set(w1))))
             r2.instance(site, ok=not w2, wclass='flag-matches-form', what='; '.join(sorted(set(w2))))
             r3.instance(site, ok=not w3, wclass='flag-on-invalid', what='; '.join(sorted(set(w3))))
